@@ -425,10 +425,12 @@ class CachedFcn(UserFcn):
             and all(self._same(kwds[k], self.lastKwds[k]) for k in kwds)
         ):
             return self.lastReturn
+        # call first: if the function raises, the memo must keep describing the last *successful* call
+        result = super().__call__(*args, **kwds)
         self.lastArgs = args
         self.lastKwds = kwds
-        self.lastReturn = super().__call__(*args, **kwds)
-        return self.lastReturn
+        self.lastReturn = result
+        return result
 
     def __repr__(self):
         return f"CachedFcn({self.expr}, {self.name})"
